@@ -214,5 +214,34 @@ pub fn cmd_foldeq(args: &[String]) {
                 writeln!(w, "E {} {} {} {} {} {} {}", u, c, d, br, lit, cls, ncls).unwrap();
             }
         }
+        // interval classes around c (C10: the class side is closed interval by interval, FoldRange by FoldRange,
+        // with strides): every alignment of a short interval containing c, probed with the partners of every member
+        // and of the two code points just outside
+        for off in 0..4u32 {
+            for len in [2u32, 4, 5] {
+                if off >= len || c < off { continue; }
+                let a = c - off;
+                let b = a + len - 1;
+                if b > 0x10FFFF || (a..=b).any(|x| !is_sv(x) || syntax(x)) { continue; }
+                let mut probes: Vec<u32> = Vec::new();
+                for e in a.saturating_sub(1)..=(b + 1).min(0x10FFFF) {
+                    probes.push(e);
+                    probes.extend(expand_code_point(e, true, true));
+                    probes.extend(expand_code_point(e, true, false));
+                }
+                probes.sort(); probes.dedup();
+                for (u, fl) in [(0u8, "i"), (1u8, "iu")] {
+                    let pos = regress::Regex::from_unicode(vec!['^' as u32, '[' as u32, a, '-' as u32, b, ']' as u32, '$' as u32].into_iter(), regress::Flags::from(fl));
+                    let neg = regress::Regex::from_unicode(vec!['^' as u32, '[' as u32, '^' as u32, a, '-' as u32, b, ']' as u32, '$' as u32].into_iter(), regress::Flags::from(fl));
+                    for &d in &probes {
+                        if !is_sv(d) { continue; }
+                        let one: String = [char::from_u32(d).unwrap()].iter().collect();
+                        let r = match &pos { Ok(re) => re.find(&one).is_some() as u8, Err(_) => 2 };
+                        let nr = match &neg { Ok(re) => re.find(&one).is_some() as u8, Err(_) => 2 };
+                        writeln!(w, "V {} {} {} {} {} {}", u, a, b, d, r, nr).unwrap();
+                    }
+                }
+            }
+        }
     }
 }
